@@ -91,6 +91,9 @@ static void c10_skinny(uint64_t idx, vh_rng *r)
     if (!vh_below(r, 4)) memset(keybytes, 0xFF, sizeof(keybytes));
     padlen = ((L + bb - 1) / bb) * bb; if (padlen > 48) padlen = 48;
     memset(padded, 0, sizeof(padded)); if (should_accept) memcpy(padded, keybytes, L);
+    if (should_accept && vh_below(r, 2)) {   /* the key the object holds beforehand is the key under test zero-extended to the largest size: same zero-padded bytes, another variant */
+        memset(old, 0, sizeof(old)); memcpy(old, keybytes, L > 48 ? 48 : L); VH_COUNT("previous_key_is_zero_extension_of_key_under_test", 1);
+    }
     snprintf(k_, sizeof(k_), "C10:skinny%u:%s", bb * 8, ename[e]);
     vh_set_crash_key(k_);
     if (vh_distinct(vh_hash(keybytes, avail, VH_HASH_INIT + idx % (2 * E_N) + 16 * (uint64_t)L))) VH_COUNT("distinct_nontrivial_cases", 1);
